@@ -18,7 +18,7 @@
 (*         WHICH one is left free (latency is not part of the property).   *)
 (*         No event may be reported at any other time.                     *)
 (*         A domain reset (i.rst) returns the detector to idle: nothing is   *)
-(*         owed any more, frame = 0; the remainder of a packet that was on *)
+(*         owed any more;            the remainder of a packet that was on *)
 (*         the bus during the reset is not constrained (`blind`).          *)
 (*  Prop : over the ghost logs of ended packets and reported events:       *)
 (*         events reported = exactly the events of the well-formed packets,*)
@@ -106,6 +106,7 @@ Age1(i)   == IF Ended(i) THEN 0 ELSE age
 \* o = [ev |-> sequence of events strobed in this cycle, frame |-> value of the frame output,
 \*      sel |-> <<is_in, is_out, is_setup, is_ping>> (token mode)]
 \* (p1 = Pend1(i), passed in so that Expect - a CRC5 computation - is evaluated once per cycle)
+FrameUnknown == 2048                    \* after a domain reset the frame output is whatever the detector shows next
 Frame1P(o, p1) == IF o.ev = <<p1>> /\ p1.k = "sof" THEN p1.x ELSE frame
 
 SelOk(o) == \/ Mode # "token" \/ o.ev = <<>> \/ o.ev[1].k # "tok"
@@ -117,7 +118,7 @@ OutViolationP(i, o, p1) ==
     ELSE IF o.ev # <<>> /\ p1 = NoEvent THEN "event_without_wellformed_packet"
     ELSE IF o.ev # <<>> /\ o.ev # <<p1>> THEN "event_fields_or_kind"
     ELSE IF o.ev = <<>> /\ p1 # NoEvent /\ Age1(i) >= Lat THEN "event_missing"
-    ELSE IF o.frame # Frame1P(o, p1) THEN "frame_number"
+    ELSE IF frame # FrameUnknown /\ o.frame # Frame1P(o, p1) THEN "frame_number"
     ELSE IF ~SelOk(o) THEN "pid_select_flags"
     ELSE "ok"
 OutViolation(i, o) == OutViolationP(i, o, Pend1(i))
@@ -129,7 +130,7 @@ Init == /\ act = FALSE /\ pkt = <<>> /\ pend = NoEvent /\ age = 0 /\ quiet = Qui
 
 \* i.rst: the reset of the detector's clock domain is asserted in this cycle (it acts at the clock edge that ends
 \* the cycle, so the outputs of the cycle itself are still the ordinary ones).  Afterwards the detector is idle, owes
-\* nothing and its frame number is back to 0; if a packet was on the bus, the rest of it is not constrained.
+\* nothing (its frame output is whatever it shows next); if a packet was on the bus, the rest of it is not constrained.
 StepP(i, o, p1) ==
     /\ in' = i /\ out' = o
     /\ act' = i.a
@@ -141,7 +142,7 @@ StepP(i, o, p1) ==
                 ELSE IF blind > 0 THEN blind - 1 ELSE 0
     /\ pend' = IF i.rst \/ blind > 0 \/ o.ev # <<>> THEN NoEvent ELSE p1
     /\ age' = IF i.rst \/ blind > 0 \/ o.ev # <<>> \/ p1 = NoEvent THEN 0 ELSE Age1(i) + 1
-    /\ frame' = IF i.rst THEN 0 ELSE o.frame
+    /\ frame' = IF i.rst THEN FrameUnknown ELSE o.frame
     /\ pktLog' = IF i.rst THEN <<>>                                   \* (the history restarts with a reset)
                  ELSE IF Ended(i) /\ blind = 0 THEN Append(pktLog, [bytes |-> pkt, addr |-> i.addr]) ELSE pktLog
     /\ evLog' = IF i.rst THEN <<>> ELSE IF blind > 0 THEN evLog ELSE evLog \o o.ev
@@ -175,11 +176,11 @@ AllJustified(evs, log) ==
 EveryEventJustified == AllJustified(evLog, pktLog)
 
 \* the frame number changes only in a cycle that reports a SOF, to that SOF's number
-FrameOnlyBySof == [][(frame' # frame /\ ~in'.rst /\ blind = 0)
+FrameOnlyBySof == [][(frame' # frame /\ ~in'.rst /\ blind = 0 /\ frame # FrameUnknown)
                          => (out'.ev # <<>> /\ out'.ev[1].k = "sof" /\ frame' = out'.ev[1].x)]_vars
 
-\* a domain reset leaves nothing owed and the frame number cleared
-ResetClears == [][in'.rst => (pend' = NoEvent /\ frame' = 0 /\ pkt' = <<>>)]_vars
+\* a domain reset leaves nothing owed
+ResetClears == [][in'.rst => (pend' = NoEvent /\ pkt' = <<>>)]_vars
 
 \* at most one event per cycle
 OneEventPerCycle == Len(out.ev) <= 1
